@@ -32,7 +32,7 @@ import (
 
 func init() {
 	core.Register(&core.Check{ID: "C16",
-		Technique: "exhaustive enumeration of (exported constructor x depth 0..3 x 2 call paths) through generated non-inlinable call chains on the real code",
+		Technique: "exhaustive enumeration of (exported constructor x argument shape x depth 0..3 x 2 call paths) through generated non-inlinable call chains on the real code",
 		Shards:    func(string) int { return 1 },
 		Run:       runC16})
 }
@@ -50,61 +50,62 @@ type fcase struct {
 	hasDepth bool   // takes a depth argument (else only d=0 is meaningful)
 	kind     string // "stack" | "domain"
 	family   string // outcome class
+	shapes   []int  // argument shapes that exist for it (see p0.ShapeNames)
 }
 
 // table lists every exported stack-capturing or domain-computing function.
 // It must agree with the switch in p0 (checked at run time) and is
 // cross-checked against an AST reachability scan of /repo.
 var table = []fcase{
-	{"errors.New", false, "stack", "root/new"},
-	{"errors.NewWithDepth", true, "stack", "root/new"},
-	{"errors.Newf", false, "stack", "root/new"},
-	{"errors.NewWithDepthf", true, "stack", "root/new"},
-	{"errors.Errorf", false, "stack", "root/new"},
-	{"errors.Wrap", false, "stack", "root/wrap"},
-	{"errors.WrapWithDepth", true, "stack", "root/wrap"},
-	{"errors.Wrapf", false, "stack", "root/wrap"},
-	{"errors.WrapWithDepthf", true, "stack", "root/wrap"},
-	{"errors.WithStack", false, "stack", "root/withstack"},
-	{"errors.WithStackDepth", true, "stack", "root/withstack"},
-	{"errors.AssertionFailedf", false, "stack", "root/assert"},
-	{"errors.AssertionFailedWithDepthf", true, "stack", "root/assert"},
-	{"errors.NewAssertionErrorWithWrappedErrf", false, "stack", "root/assert"},
-	{"errors.HandleAsAssertionFailure", false, "stack", "root/assert"},
-	{"errors.HandleAsAssertionFailureDepth", true, "stack", "root/assert"},
-	{"errors.Join", false, "stack", "root/join"},
-	{"errors.JoinWithDepth", true, "stack", "root/join"},
-	{"errors.PackageDomain", false, "domain", "root/domain"},
-	{"errors.PackageDomainAtDepth", true, "domain", "root/domain"},
+	{"errors.New", false, "stack", "root/new", []int{0, 1}},
+	{"errors.NewWithDepth", true, "stack", "root/new", []int{0, 1}},
+	{"errors.Newf", false, "stack", "root/new", []int{0, 1, 2, 3}},
+	{"errors.NewWithDepthf", true, "stack", "root/new", []int{0, 1, 2, 3}},
+	{"errors.Errorf", false, "stack", "root/new", []int{0, 1, 2, 3}},
+	{"errors.Wrap", false, "stack", "root/wrap", []int{0, 1}},
+	{"errors.WrapWithDepth", true, "stack", "root/wrap", []int{0, 1}},
+	{"errors.Wrapf", false, "stack", "root/wrap", []int{0, 1, 2, 6}},
+	{"errors.WrapWithDepthf", true, "stack", "root/wrap", []int{0, 1, 2, 6}},
+	{"errors.WithStack", false, "stack", "root/withstack", []int{0}},
+	{"errors.WithStackDepth", true, "stack", "root/withstack", []int{0}},
+	{"errors.AssertionFailedf", false, "stack", "root/assert", []int{0, 1, 2, 3}},
+	{"errors.AssertionFailedWithDepthf", true, "stack", "root/assert", []int{0, 1, 2, 3}},
+	{"errors.NewAssertionErrorWithWrappedErrf", false, "stack", "root/assert", []int{0, 1, 2, 6}},
+	{"errors.HandleAsAssertionFailure", false, "stack", "root/assert", []int{0}},
+	{"errors.HandleAsAssertionFailureDepth", true, "stack", "root/assert", []int{0}},
+	{"errors.Join", false, "stack", "root/join", []int{0, 4, 5}},
+	{"errors.JoinWithDepth", true, "stack", "root/join", []int{0, 4, 5}},
+	{"errors.PackageDomain", false, "domain", "root/domain", []int{0}},
+	{"errors.PackageDomainAtDepth", true, "domain", "root/domain", []int{0}},
 
-	{"errutil.New", false, "stack", "errutil/new"},
-	{"errutil.NewWithDepth", true, "stack", "errutil/new"},
-	{"errutil.Newf", false, "stack", "errutil/new"},
-	{"errutil.NewWithDepthf", true, "stack", "errutil/new"},
-	{"errutil.Wrap", false, "stack", "errutil/wrap"},
-	{"errutil.WrapWithDepth", true, "stack", "errutil/wrap"},
-	{"errutil.Wrapf", false, "stack", "errutil/wrap"},
-	{"errutil.WrapWithDepthf", true, "stack", "errutil/wrap"},
-	{"errutil.AssertionFailedf", false, "stack", "errutil/assert"},
-	{"errutil.AssertionFailedWithDepthf", true, "stack", "errutil/assert"},
-	{"errutil.HandleAsAssertionFailure", false, "stack", "errutil/assert"},
-	{"errutil.HandleAsAssertionFailureDepth", true, "stack", "errutil/assert"},
-	{"errutil.NewAssertionErrorWithWrappedErrf", false, "stack", "errutil/assert"},
-	{"errutil.NewAssertionErrorWithWrappedErrDepthf", true, "stack", "errutil/assert"},
-	{"errutil.JoinWithDepth", true, "stack", "errutil/join"},
+	{"errutil.New", false, "stack", "errutil/new", []int{0, 1}},
+	{"errutil.NewWithDepth", true, "stack", "errutil/new", []int{0, 1}},
+	{"errutil.Newf", false, "stack", "errutil/new", []int{0, 1, 2, 3}},
+	{"errutil.NewWithDepthf", true, "stack", "errutil/new", []int{0, 1, 2, 3}},
+	{"errutil.Wrap", false, "stack", "errutil/wrap", []int{0, 1}},
+	{"errutil.WrapWithDepth", true, "stack", "errutil/wrap", []int{0, 1}},
+	{"errutil.Wrapf", false, "stack", "errutil/wrap", []int{0, 1, 2, 6}},
+	{"errutil.WrapWithDepthf", true, "stack", "errutil/wrap", []int{0, 1, 2, 6}},
+	{"errutil.AssertionFailedf", false, "stack", "errutil/assert", []int{0, 1, 2, 3}},
+	{"errutil.AssertionFailedWithDepthf", true, "stack", "errutil/assert", []int{0, 1, 2, 3}},
+	{"errutil.NewAssertionErrorWithWrappedErrf", false, "stack", "errutil/assert", []int{0, 1, 2, 6}},
+	{"errutil.NewAssertionErrorWithWrappedErrDepthf", true, "stack", "errutil/assert", []int{0, 1, 2, 6}},
+	{"errutil.HandleAsAssertionFailure", false, "stack", "errutil/assert", []int{0}},
+	{"errutil.HandleAsAssertionFailureDepth", true, "stack", "errutil/assert", []int{0}},
+	{"errutil.JoinWithDepth", true, "stack", "errutil/join", []int{0, 4, 5}},
 
-	{"withstack.WithStack", false, "stack", "withstack"},
-	{"withstack.WithStackDepth", true, "stack", "withstack"},
+	{"withstack.WithStack", false, "stack", "withstack", []int{0}},
+	{"withstack.WithStackDepth", true, "stack", "withstack", []int{0}},
 
-	{"domains.New", false, "domain", "domains"},
-	{"domains.Handled", false, "domain", "domains"},
-	{"domains.PackageDomain", false, "domain", "domains"},
-	{"domains.PackageDomainAtDepth", true, "domain", "domains"},
+	{"domains.New", false, "domain", "domains", []int{0, 1}},
+	{"domains.Handled", false, "domain", "domains", []int{0}},
+	{"domains.PackageDomain", false, "domain", "domains", []int{0}},
+	{"domains.PackageDomainAtDepth", true, "domain", "domains", []int{0}},
 
-	{"status.Error", false, "stack", "grpc-status"},
-	{"status.Errorf", false, "stack", "grpc-status"},
-	{"status.WrapErr", false, "stack", "grpc-status"},
-	{"status.WrapErrf", false, "stack", "grpc-status"},
+	{"status.Error", false, "stack", "grpc-status", []int{0, 1}},
+	{"status.Errorf", false, "stack", "grpc-status", []int{0, 1, 2, 3}},
+	{"status.WrapErr", false, "stack", "grpc-status", []int{0, 1}},
+	{"status.WrapErrf", false, "stack", "grpc-status", []int{0, 1, 2, 6}},
 }
 
 // notConstructors are exported functions that capture a stack but do not
@@ -141,20 +142,39 @@ func links() [maxDepth + 1]link {
 // enter runs one case from the top of the chain.
 //
 //go:noinline
-func enter(path int, name string, depth int) (string, error) {
+func enter(path int, name string, shape, depth int) (string, error) {
 	if path == 1 {
-		return p3.H(name, depth)
+		return p3.H(name, shape, depth)
 	}
 	var top interface {
-		G(string, int) (string, error)
+		G(string, int, int) (string, error)
 	} = &p3.T{}
-	return top.G(name, depth)
+	return top.G(name, shape, depth)
 }
 
 type replay struct {
 	Func  string `json:"func"`
+	Shape int    `json:"shape"`
 	Depth int    `json:"depth"`
 	Path  int    `json:"path"`
+}
+
+// vkey is clause|pkg.Func, with |shape=<n> appended for the non-default
+// argument shapes only (keys of shape 0 are the historical ones).
+func vkey(clause string, fc fcase, shape int) string {
+	if shape == 0 {
+		return clause + "|" + fc.name
+	}
+	return fmt.Sprintf("%s|%s|shape=%d", clause, fc.name, shape)
+}
+
+func hasShape(fc fcase, shape int) bool {
+	for _, s := range fc.shapes {
+		if s == shape {
+			return true
+		}
+	}
+	return false
 }
 
 // lastDot splits "a/b.(*T).G" into the part after the last dot, the way
@@ -177,11 +197,11 @@ func whoIs(ls [maxDepth + 1]link, fn, dir string) string {
 	return "not a link of the chain"
 }
 
-// runCase executes one (function, depth, path) and applies the oracle. It
-// returns the clauses evaluated.
-func runCase(r *core.Result, ls [maxDepth + 1]link, fc fcase, depth, path int) (evals int64, ok bool) {
-	rp := replay{fc.name, depth, path}
-	where := fmt.Sprintf("%s at depth %d via call path %d", fc.name, depth, path)
+// runCase executes one (function, shape, depth, path) and applies the
+// oracle. It returns the clauses evaluated.
+func runCase(r *core.Result, ls [maxDepth + 1]link, fc fcase, shape, depth, path int) (evals int64, ok bool) {
+	rp := replay{fc.name, shape, depth, path}
+	where := fmt.Sprintf("%s (argument shape %d %q) at depth %d via call path %d", fc.name, shape, p0.ShapeNames[shape], depth, path)
 	want := ls[depth]
 	wantFn := want.fn[path-1]
 
@@ -190,18 +210,18 @@ func runCase(r *core.Result, ls [maxDepth + 1]link, fc fcase, depth, path int) (
 	var pnc interface{}
 	func() {
 		defer func() { pnc = recover() }()
-		dom, err = enter(path, fc.name, depth)
+		dom, err = enter(path, fc.name, shape, depth)
 	}()
 	if pnc != nil {
 		clause := "stack-frame"
 		if fc.kind == "domain" {
 			clause = "domain"
 		}
-		r.Violate(clause+"|"+fc.name, fmt.Sprintf("%s panics: %v", where, pnc), rp)
+		r.Violate(vkey(clause, fc, shape), fmt.Sprintf("%s panics: %v", where, pnc), rp)
 		return 1, false
 	}
-	if dom == p0.Unknown {
-		r.HarnessError("C16: p0 has no case for table entry %q (path %d)", fc.name, path)
+	if dom == p0.Unknown || dom == p0.NoShape {
+		r.HarnessError("C16: p0 has no case for table entry %q shape %d (path %d)", fc.name, shape, path)
 		return 0, false
 	}
 
@@ -215,7 +235,7 @@ func runCase(r *core.Result, ls [maxDepth + 1]link, fc fcase, depth, path int) (
 		if dom != wantDom {
 			ok = false
 			got := strings.TrimPrefix(dom, "error domain: pkg ")
-			r.Violate("domain|"+fc.name, fmt.Sprintf("%s: domain is %q (%s), want %q (the package of link %d, function %s)",
+			r.Violate(vkey("domain", fc, shape), fmt.Sprintf("%s: domain is %q (%s), want %q (the package of link %d, function %s)",
 				where, dom, whoIs(ls, "", got), wantDom, depth, wantFn), rp)
 		}
 		return evals, ok
@@ -234,11 +254,11 @@ func runCase(r *core.Result, ls [maxDepth + 1]link, fc fcase, depth, path int) (
 	}
 	evals++
 	if len(stacks) == 0 {
-		r.Violate("stack-frame|"+fc.name, fmt.Sprintf("%s: no layer of the result (%T) carries a stack trace", where, err), rp)
+		r.Violate(vkey("stack-frame", fc, shape), fmt.Sprintf("%s: no layer of the result (%T) carries a stack trace", where, err), rp)
 		return evals, false
 	}
 	if len(stacks) != 1 {
-		r.HarnessError("C16: %s produced %d stacks; the harness causes are meant to be stackless", where, len(stacks))
+		r.HarnessError("C16: %s produced %d stacks; the harness causes are meant to be stackless and secondary errors are not on the cause chain", where, len(stacks))
 	}
 	outer := stacks[0]
 	fr := outer.Frames[len(outer.Frames)-1] // Sentry order: innermost frame last
@@ -247,7 +267,7 @@ func runCase(r *core.Result, ls [maxDepth + 1]link, fc fcase, depth, path int) (
 	frameOK := gotFn == wantFn && gotDir == want.dir && gotFile == want.file
 	if !frameOK {
 		ok = false
-		r.Violate("stack-frame|"+fc.name, fmt.Sprintf("%s: first recorded frame is %s (%s:%d; %s), want %s in %s (link %d)",
+		r.Violate(vkey("stack-frame", fc, shape), fmt.Sprintf("%s: first recorded frame is %s (%s:%d; %s), want %s in %s (link %d)",
 			where, gotFn, fr.AbsPath, fr.Lineno, whoIs(ls, gotFn, ""), wantFn, filepath.Join(want.dir, want.file), depth), rp)
 	}
 
@@ -262,10 +282,10 @@ func runCase(r *core.Result, ls [maxDepth + 1]link, fc fcase, depth, path int) (
 		switch {
 		case !found:
 			ok = false
-			r.Violate("oneline|"+fc.name, fmt.Sprintf("%s: GetOneLineSource finds nothing although a stack is recorded", where), rp)
+			r.Violate(vkey("oneline", fc, shape), fmt.Sprintf("%s: GetOneLineSource finds nothing although a stack is recorded", where), rp)
 		case file != want.file || fn != lastDot(wantFn) || line != ifr.Lineno || line <= 0:
 			ok = false
-			r.Violate("oneline|"+fc.name, fmt.Sprintf("%s: GetOneLineSource = (%s, %d, %s), want (%s, %d, %s)",
+			r.Violate(vkey("oneline", fc, shape), fmt.Sprintf("%s: GetOneLineSource = (%s, %d, %s), want (%s, %d, %s)",
 				where, file, line, fn, want.file, ifr.Lineno, lastDot(wantFn)), rp)
 		}
 	}
@@ -276,11 +296,16 @@ func runC16(c *core.Ctx, r *core.Result) {
 	if c.Shard != 0 {
 		return
 	}
-	r.Bounds = fmt.Sprintf("%d exported functions (root, errutil, withstack, domains, grpc/status) x depth 0..%d (depth 0 only for functions without a depth parameter) x %d call paths (plain functions; methods through interface values), each through a 4-package non-inlinable chain", len(table), maxDepth, nPaths)
-	r.Rule = "state = (function, depth, call path); transition = one call-chain hop (4 per state); non-trivial = depth>=1 or call path 2; outcome class = function family"
+	nfs := 0
+	for _, fc := range table {
+		nfs += len(fc.shapes)
+	}
+	r.Bounds = fmt.Sprintf("%d exported functions (root, errutil, withstack, domains, grpc/status) x every argument shape that selects a different library branch (%d (function, shape) pairs; shapes %s) x depth 0..%d (depth 0 only for functions without a depth parameter) x %d call paths (plain functions; methods through interface values), each through a 4-package non-inlinable chain", len(table), nfs, strings.Join(p0.ShapeNames, ", "), maxDepth, nPaths)
+	r.Rule = "state = (function, argument shape, depth, call path); transition = one call-chain hop (4 per state); non-trivial = depth>=1 or call path 2 or shape != plain; outcome class = function family"
 	r.Assumptions = []string{
 		"//go:noinline keeps every link of the chain a real frame; the library functions themselves may be inlined (runtime.Callers/Caller expand inlined frames)",
-		"causes handed to Wrap*/WithStack*/HandleAs*/Join* carry no stack and no domain, so each result has exactly one stack",
+		"causes handed to Wrap*/WithStack*/HandleAs*/Join* and the %w argument carry no stack and no domain, so each result has exactly one stack on its cause chain; the error-valued %v argument (shape error-arg) does have a stack of its own, which must not be picked up",
+		"argument shapes were chosen by reading the branches of errutil/utilities.go, errutil/assertions.go, join, withstack, domains and grpc/status; a branch keyed on something else is not covered",
 		"errutil.As captures a stack only to build the panic object for API misuse; it and the functions reaching a capture only through it (errors.As, oserror.Is*) are not constructors and are excluded (counted in functions_capturing_only_via_As_panic)",
 		"expected directories, files and function names are asked from the runtime (runtime.Caller(0), FuncForPC), not hard-coded",
 	}
@@ -304,8 +329,8 @@ func runC16(c *core.Ctx, r *core.Result) {
 			return
 		}
 		for _, fc := range table {
-			if fc.name == rp.Func && rp.Depth >= 0 && rp.Depth <= maxDepth && (rp.Path == 1 || rp.Path == 2) {
-				ev, _ := runCase(r, ls, fc, rp.Depth, rp.Path)
+			if fc.name == rp.Func && hasShape(fc, rp.Shape) && rp.Depth >= 0 && rp.Depth <= maxDepth && (rp.Path == 1 || rp.Path == 2) {
+				ev, _ := runCase(r, ls, fc, rp.Shape, rp.Depth, rp.Path)
 				r.States++
 				r.Transitions += hopsPerCase
 				r.Evaluations += ev
@@ -324,19 +349,32 @@ func runC16(c *core.Ctx, r *core.Result) {
 		if fc.hasDepth {
 			top = maxDepth
 		}
-		for d := 0; d <= top; d++ {
-			for path := 1; path <= nPaths; path++ {
-				ev, ok := runCase(r, ls, fc, d, path)
-				r.States++
-				r.Transitions += hopsPerCase
-				r.Evaluations += ev
-				if ok && (d >= 1 || path == 2) {
-					r.Nontrivial++
+		for shape := range p0.ShapeNames {
+			if !hasShape(fc, shape) {
+				// p0 must agree that the combination does not exist
+				for path := 1; path <= nPaths; path++ {
+					if dom, _ := enter(path, fc.name, shape, 0); dom != p0.NoShape {
+						r.HarnessError("C16: p0 (path %d) accepts shape %d of %s, the table does not list it", path, shape, fc.name)
+					}
 				}
-				r.Outcome(fc.family)
-				r.Count("cases_"+fc.kind, 1)
-				if (i%9 == 0 && d == top && path == 2) || (fc.name == "errors.PackageDomain" && path == 1) {
-					r.Sample(map[string]interface{}{"func": fc.name, "depth": d, "path": path, "expect_function": ls[d].fn[path-1], "expect_dir": ls[d].dir, "ok": ok})
+				continue
+			}
+			r.Count("function_shape_pairs", 1)
+			for d := 0; d <= top; d++ {
+				for path := 1; path <= nPaths; path++ {
+					ev, ok := runCase(r, ls, fc, shape, d, path)
+					r.States++
+					r.Transitions += hopsPerCase
+					r.Evaluations += ev
+					if ok && (d >= 1 || path == 2 || shape != 0) {
+						r.Nontrivial++
+					}
+					r.Outcome(fc.family)
+					r.Count("cases_"+fc.kind, 1)
+					r.Count(fmt.Sprintf("cases_shape_%d_%s", shape, p0.ShapeNames[shape]), 1)
+					if (i%9 == 0 && d == top && path == 2 && shape == fc.shapes[len(fc.shapes)-1]) || (fc.name == "errors.PackageDomain" && path == 1) {
+						r.Sample(map[string]interface{}{"func": fc.name, "shape": p0.ShapeNames[shape], "depth": d, "path": path, "expect_function": ls[d].fn[path-1], "expect_dir": ls[d].dir, "ok": ok})
+					}
 				}
 			}
 		}
